@@ -1,6 +1,7 @@
 import GB.C19.Proofs
 import GB.C19.Join
 import GB.C19.QueryProofs
+import GB.C19.WireProofs
 import GB.Generated.Facts
 /-
   C19 — property theorems.  `dispatch` is `WebBridge.ServeHTTP` (bridge.go, after fix D18),
@@ -389,3 +390,154 @@ theorem C19_rawquery_example :
     (rawMetadataQuery [] raw).md = [([120,45,97], [[118,32,49], [119]])] ∧
     (rawMetadataQuery [] raw).query = [([97], [[49]]), ([101], [[32,65]]), ([], [[120]]), ([102], [[]])] := by
   decide
+
+/-! ## Round 5b — dispatch over the RAW header bytes (GB/C19/Wire.lean)
+
+  `dispatchRaw hs` = the model of the code path (`GB.C07.serverHeader`: textproto.ReadMIMEHeader + net/http's checks + the
+  map `r.Header`, then `dispatch` reading `Values`/`Get` of the map); `dispatchWire hs` = the token-list specification applied
+  to the header LINES of `hs`. -/
+
+/-- **Dispatch on the wire.**  For EVERY byte string `hs` sent as a header block: the server layer answers 400 exactly when
+    the line-level specification has no lines to judge, and otherwise the bridge selected by `WebBridge.ServeHTTP` from the
+    map `r.Header` is the bridge the token-list rule selects from the lines of `hs` (names canonicalised, wire order,
+    comma-split, OWS-trimmed, ASCII case-insensitive). -/
+theorem C19_dispatch_wire (hs : Bytes) : dispatchRaw hs = dispatchWire hs := by
+  unfold dispatchRaw dispatchWire GB.C07.serverHeader
+  cases GB.C07.serverPairs hs with
+  | none => rfl
+  | some ps => simp only [Option.map_some]; rw [dispatch_wire_pairs]
+
+/-- … in the form of the task statement: whenever the server layer accepts (`serverHeader hs = some H`), the lines `ps` it
+    read exist and `dispatch` of the request's header map = the wire specification of those lines. -/
+theorem C19_dispatch_wire_accepted (hs : Bytes) (H : MD) (h : GB.C07.serverHeader hs = some H) :
+    ∃ ps, GB.C07.serverPairs hs = some ps ∧ GB.C07.readPairs (GB.C07.wireLines hs) = some ps ∧
+      dispatch (hdrsOfMap H) = wireDispatch ps := by
+  unfold GB.C07.serverHeader at h
+  cases hp : GB.C07.serverPairs hs with
+  | none => rw [hp] at h; simp at h
+  | some ps =>
+    rw [hp] at h
+    simp only [Option.map_some, Option.some.injEq] at h
+    subst h
+    refine ⟨ps, rfl, ?_, dispatch_wire_pairs ps⟩
+    unfold GB.C07.serverPairs at hp
+    split at hp
+    · simp at hp
+    · rename_i ps' hr
+      split at hp
+      · simp only [Option.some.injEq] at hp; subst hp; exact hr
+      · simp at hp
+
+/-- The wire specification in RFC 7230 terms: the request is an upgrade (either WebSocket bridge) iff the `Connection` LINES
+    of the block hold the `upgrade` token and the `Upgrade` lines the `websocket` token (`HasToken`: declarative list grammar). -/
+theorem C19_dispatch_wire_ws (ps : List (Bytes × Bytes)) :
+    (wireDispatch ps = .ws ∨ wireDispatch ps = .grpcws) ↔
+      HasToken (wireLinesOf kConnection ps) tokUpgrade ∧ HasToken (wireLinesOf kUpgrade ps) tokWebsocket := by
+  rw [← dispatch_wire_pairs, hdrs_of_serverPairs]
+  exact C19_ws _
+
+theorem C19_dispatch_wire_grpcws (ps : List (Bytes × Bytes)) :
+    wireDispatch ps = .grpcws ↔
+      (HasToken (wireLinesOf kConnection ps) tokUpgrade ∧ HasToken (wireLinesOf kUpgrade ps) tokWebsocket) ∧
+        HasToken (wireLinesOf kProtocol ps) tokGrpcWS := by
+  rw [← dispatch_wire_pairs, hdrs_of_serverPairs]
+  exact C19_grpcws _
+
+theorem C19_dispatch_wire_grpcweb (ps : List (Bytes × Bytes)) :
+    wireDispatch ps = .grpcweb ↔
+      ¬ (HasToken (wireLinesOf kConnection ps) tokUpgrade ∧ HasToken (wireLinesOf kUpgrade ps) tokWebsocket) ∧
+        BeginsWithFold (first (wireLinesOf kContentType ps)) grpcWebBase := by
+  rw [← dispatch_wire_pairs, hdrs_of_serverPairs]
+  exact C19_grpcweb _
+
+/-- **Continuation lines.**  The value of a folded header is read off the JOINED logical line (first line and every
+    continuation `trim`med, joined by one SP): name = what precedes its first ':', value = the rest without leading OWS.  So a
+    continuation completes (`keep-alive,` + ` Upgrade`) or breaks (`up` + ` grade` = `up grade`) a token exactly as the joined
+    line reads. -/
+theorem C19_wire_continuation_joined (first : Bytes) (conts : List Bytes) (k v : Bytes)
+    (h : GB.C07.parseLogical (first :: conts) = some (k, v)) :
+    k = (GB.C07.cutColon (GB.C07.trimB first ++ conts.flatMap (fun c => 32 :: GB.C07.trimB c))).1 ∧
+    v = GB.C07.trimL (GB.C07.cutColon (GB.C07.trimB first ++ conts.flatMap (fun c => 32 :: GB.C07.trimB c))).2 := by
+  simp only [GB.C07.parseLogical] at h
+  split at h
+  · simp at h
+  · split at h
+    · simp at h
+    · split at h
+      · simp at h
+      · simp only [Option.some.injEq, Prod.mk.injEq] at h
+        exact ⟨h.1.symm, h.2.symm⟩
+
+/-- **A header name with a space is a 400, never a dispatch.**  textproto lets `Connection : upgrade` through (key
+    `Connection `), net/http's `ValidHeaderFieldName` does not: whenever any line read from `hs` has a SP in its name the
+    server layer rejects the block and no bridge runs. -/
+theorem C19_wire_name_space_rejected (hs : Bytes) (ps : List (Bytes × Bytes))
+    (h : GB.C07.readPairs (GB.C07.wireLines hs) = some ps) (p : Bytes × Bytes) (hp : p ∈ ps) (hsp : (32 : UInt8) ∈ p.1) :
+    GB.C07.serverHeader hs = none ∧ dispatchRaw hs = none ∧ dispatchWire hs = none := by
+  have hn : GB.C07.serverPairs hs = none := by
+    cases hs' : GB.C07.serverPairs hs with
+    | none => rfl
+    | some ps' =>
+      exfalso
+      have hps : ps' = ps := by
+        unfold GB.C07.serverPairs at hs'
+        rw [h] at hs'
+        simp only at hs'
+        split at hs'
+        · simp only [Option.some.injEq] at hs'; exact hs'.symm
+        · simp at hs'
+      subst hps
+      have := serverPairs_names_tok hs ps' hs' p hp
+      have h32 := List.all_eq_true.1 this 32 hsp
+      exact absurd h32 (by decide)
+  have h1 : GB.C07.serverHeader hs = none := by unfold GB.C07.serverHeader; rw [hn]; rfl
+  exact ⟨h1, by unfold dispatchRaw; rw [h1]; rfl, by unfold dispatchWire; rw [hn]; rfl⟩
+
+/-- … and conversely every name of an accepted block is made of token bytes only. -/
+theorem C19_wire_names_tokens (hs : Bytes) (ps : List (Bytes × Bytes)) (h : GB.C07.serverPairs hs = some ps) :
+    ∀ p ∈ ps, p.1.all GB.C07.validTok = true := serverPairs_names_tok hs ps h
+
+/-- **Header-name case is irrelevant.**  Two (token) names equal up to ASCII case have the same canonical form … -/
+theorem C19_wire_name_canon_case (k k' : Bytes) (h : k.all GB.C07.validTok = true) (he : equalFold k k' = true) :
+    GB.C07.canonKey k = GB.C07.canonKey k' := by
+  apply canonKey_caseEq k k' h
+  unfold equalFold at he
+  simp only [Bool.and_eq_true, beq_iff_eq] at he
+  exact he.2
+
+/-- … and the wire specification depends on the names through their canonical form only: re-spelling any names of a block
+    (same values, same order) never changes the bridge. -/
+theorem C19_wire_name_case (ps ps' : List (Bytes × Bytes)) (h : SameLines ps ps') : wireDispatch ps = wireDispatch ps' :=
+  wireDispatch_same ps ps' h
+
+/-! Kernel-checked header blocks (`decide`), bytes exactly as on the wire. -/
+
+set_option maxRecDepth 1000000 in
+/-- `Connection: keep-alive` / `Upgrade: websocket` / `connection: x, Upgrade` — the token is on the SECOND Connection line,
+    spelled with another name case ⇒ WebSocket -/
+theorem C19_wire_example_split_lines :
+    dispatchRaw [72,111,115,116,58,32,97,13,10,67,111,110,110,101,99,116,105,111,110,58,32,107,101,101,112,45,97,108,105,118,101,13,10,85,112,103,114,97,100,101,58,32,119,101,98,115,111,99,107,101,116,13,10,99,111,110,110,101,99,116,105,111,110,58,32,120,44,32,85,112,103,114,97,100,101,13,10,13,10] = some .ws := by decide
+
+set_option maxRecDepth 1000000 in
+/-- `Connection: keep-alive,\r\n Upgrade` — the continuation line completes the list ⇒ WebSocket; the same bytes without
+    the leading SP (`Connection: keep-alive,\r\nUpgrade: websocket`) are two headers ⇒ plain HTTP -/
+theorem C19_wire_example_continuation_completes :
+    dispatchRaw [72,111,115,116,58,32,97,13,10,67,111,110,110,101,99,116,105,111,110,58,32,107,101,101,112,45,97,108,105,118,101,44,13,10,32,85,112,103,114,97,100,101,13,10,85,112,103,114,97,100,101,58,32,119,101,98,115,111,99,107,101,116,13,10,13,10] = some .ws ∧
+    dispatchRaw [72,111,115,116,58,32,97,13,10,67,111,110,110,101,99,116,105,111,110,58,32,107,101,101,112,45,97,108,105,118,101,44,13,10,85,112,103,114,97,100,101,58,32,119,101,98,115,111,99,107,101,116,13,10,13,10] = some .http := by decide
+
+set_option maxRecDepth 1000000 in
+/-- `Connection: up\r\n grade` — joined `up grade`: not the token ⇒ plain HTTP -/
+theorem C19_wire_example_continuation_breaks :
+    dispatchRaw [72,111,115,116,58,32,97,13,10,67,111,110,110,101,99,116,105,111,110,58,32,117,112,13,10,32,103,114,97,100,101,13,10,85,112,103,114,97,100,101,58,32,119,101,98,115,111,99,107,101,116,13,10,13,10] = some .http := by decide
+
+set_option maxRecDepth 1000000 in
+/-- `cOnNeCtIoN: UPGRADE` / `UPGRADE: h2c,<TAB>WebSocket ` / `sec-websocket-PROTOCOL: x` / `SEC-WEBSOCKET-protocol: y , Grpc-WebSockets`
+    ⇒ gRPC-WebSocket; `content-TYPE: Application/GRPC-Web+proto; x=1` before `Content-type: text/plain` ⇒ gRPC-Web -/
+theorem C19_wire_example_mixed_case_names :
+    dispatchRaw [72,111,115,116,58,32,97,13,10,99,79,110,78,101,67,116,73,111,78,58,32,85,80,71,82,65,68,69,13,10,85,80,71,82,65,68,69,58,32,104,50,99,44,9,87,101,98,83,111,99,107,101,116,32,13,10,115,101,99,45,119,101,98,115,111,99,107,101,116,45,80,82,79,84,79,67,79,76,58,32,120,13,10,83,69,67,45,87,69,66,83,79,67,75,69,84,45,112,114,111,116,111,99,111,108,58,32,121,32,44,32,71,114,112,99,45,87,101,98,83,111,99,107,101,116,115,13,10,13,10] = some .grpcws ∧
+    dispatchRaw [72,111,115,116,58,32,97,13,10,99,111,110,116,101,110,116,45,84,89,80,69,58,32,65,112,112,108,105,99,97,116,105,111,110,47,71,82,80,67,45,87,101,98,43,112,114,111,116,111,59,32,120,61,49,13,10,67,111,110,116,101,110,116,45,116,121,112,101,58,32,116,101,120,116,47,112,108,97,105,110,13,10,13,10] = some .grpcweb := by decide
+
+set_option maxRecDepth 1000000 in
+/-- `Connection : upgrade` (SP before the colon) ⇒ 400, no bridge -/
+theorem C19_wire_example_name_space :
+    dispatchRaw [72,111,115,116,58,32,97,13,10,67,111,110,110,101,99,116,105,111,110,32,58,32,117,112,103,114,97,100,101,13,10,85,112,103,114,97,100,101,58,32,119,101,98,115,111,99,107,101,116,13,10,13,10] = none := by decide
